@@ -306,9 +306,9 @@ fn concrete_then_symbolic(t1: f64, tc1: bool, l1: &'static str, t2: f64, s2: Sha
     finish(ctx);
 }
 
-// @verif property=C12 tier=quick timeout=1500 mem=24 bounds="concrete timing line at 10, then a symbolic INHERITED full line at 10 (one group, different kinds: inherited points win, timing point stays)"
+// @verif property=C12 tier=quick timeout=1500 mem=16 bounds="concrete timing line at 10, then a symbolic INHERITED full line at 10 (one group, different kinds: inherited points win, timing point stays)"
 oracle_proof!(c12_conc_t10_then_i10, 32, concrete_then_symbolic(10.0, true, "10,500,4,2,0,50,1,0", 10.0, Shape::FullInherited, "10,$h,$i,$j,$k,$l,0,$m"));
-// @verif property=C12 tier=quick timeout=1500 mem=24 bounds="concrete inherited line at 10, then a symbolic TIMING full line at 10 (one group: the timing line must not override the inherited points)"
+// @verif property=C12 tier=quick timeout=1500 mem=16 bounds="concrete inherited line at 10, then a symbolic TIMING full line at 10 (one group: the timing line must not override the inherited points)"
 oracle_proof!(c12_conc_i10_then_t10, 32, concrete_then_symbolic(10.0, false, "10,500,4,2,0,50,0,0", 10.0, Shape::FullTiming, "10,$h,$i,$j,$k,$l,1,$m"));
 
 // Vacuity twin.
